@@ -1,1 +1,30 @@
-From CMI Require Import Cxx.C18_Dec Cxx.C18_Gen Cxx.C18_Defs.
+(* C18 proofs: collects the four parts and shows that the hypotheses of the sampler theorems are satisfiable. *)
+From Coq Require Import Reals List Lra Lia.
+From CMI Require Export Cxx.C18_Dec Cxx.C18_Gen Cxx.C18_Defs Cxx.C18_ProofsA Cxx.C18_ProofsB Cxx.C18_ProofsC Cxx.C18_ProofsD.
+Import ListNotations.
+Local Open Scope R_scope.
+
+(* the hypotheses of sample_lyman_range are satisfiable (tables + a temperature inside them) *)
+Example lyman_hyps_sat : lyman_tables w_freq w_temp w_cdfs /\ nth 0 w_temp 0 <= 2500 <= nth (length w_temp - 1) w_temp 0.
+Proof. split; [exact w_tables | unfold w_temp; cbn [length nth Nat.sub]; lra]. Qed.
+
+(* ... and those of sample_linear_range / sample_linear_monotone *)
+Example linear_hyps_sat : let freq := [1; 2; 3] in let cdf := [0; 1 / 2; 1] in
+  length freq = length cdf /\ (2 <= length cdf)%nat /\ Rsorted freq /\ Rsorted cdf /\ nth 0 cdf 0 < 7 / 10 <= nth (length cdf - 1) cdf 0.
+Proof.
+  cbn zeta. cbn [length nth Nat.sub]. repeat split; try lia; try lra;
+    apply adj_sorted; cbn [length]; intros [|[|i]] Hi; cbn [nth]; try lia; lra.
+Qed.
+
+(* ... and those of sample_planck_range *)
+Example planck_hyps_sat : planck_tables [0; 1 / 2; 1] [-10; log10R (1 / 2); log10R 1].
+Proof.
+  unfold planck_tables. cbn [length nth]. repeat split; try lia.
+  - apply Rmult_lt_reg_r with (10 ^ 10); [apply pow_lt; lra|]. unfold Rdiv. rewrite Rmult_assoc, Rinv_l by (apply pow_nonzero; lra). lra.
+  - destruct j as [|[|[|j]]]; cbn [nth]; try lia; lra.
+  - destruct j as [|[|[|j]]]; cbn [nth]; try lia; reflexivity.
+Qed.
+
+(* the sign conditions are not vacuous: a row with a negative sigma_0 is rejected *)
+Example rowA_ok_rejects : rowA_ok (RA 1 1 1 0 (D 136 (-1)) (D 4298 (-4)) (D (-5475) 1) (D 3288 (-2)) (D 2963 (-3)) (D 0 0)) = false.
+Proof. reflexivity. Qed.
